@@ -18,11 +18,11 @@ REPO = os.environ.get("NEOLITH_REPO", "/repo")
 
 def parse_header(path):
     """Header lines of a witness patch:  '# expect: <regex over output>'  '# rule: C15-a'  '# what: text'"""
-    meta = {"expect": [], "what": "", "rule": ""}
+    meta = {"expect": [], "what": "", "rule": "", "silent": ""}
     for line in open(path, errors="replace"):
         if not line.startswith("#"):
             break
-        m = re.match(r"#\s*(expect|what|rule):\s*(.*)$", line.rstrip())
+        m = re.match(r"#\s*(expect|what|rule|silent):\s*(.*)$", line.rstrip())
         if m:
             if m.group(1) == "expect":
                 meta["expect"].append(m.group(2))
@@ -50,6 +50,13 @@ def run_one(pid, patch, keep=False):
         r = subprocess.run([sys.executable, os.path.join(VERIF, "check"), pid, "--tier", "quick"], env=env,
                            stdout=subprocess.PIPE, stderr=subprocess.STDOUT, text=True)
         out = r.stdout
+        if meta["silent"]:
+            # behaviour-preserving variant: the check must stay quiet
+            status = "silent-ok" if r.returncode == 0 and "VIOLATION" not in out else "FALSE-ALARM"
+            res = {"witness": os.path.basename(patch), "status": status, "rule": meta["rule"], "what": meta["what"], "exit": r.returncode}
+            if status != "silent-ok":
+                res["output_tail"] = out[-1500:]
+            return res
         fired = r.returncode == 1 and "VIOLATION property=%s" % pid in out
         named = all(re.search(e, out) for e in meta["expect"]) if meta["expect"] else fired
         status = "fired" if (fired and named) else ("fired-unnamed" if fired else ("broken" if r.returncode == 2 else "missed"))
@@ -71,7 +78,8 @@ def selftest(pid, mod=None, jobs=6):
         results = list(ex.map(lambda p: run_one(pid, p), patches))
     summ = {"total": len(results), "fired": sum(r["status"] == "fired" for r in results),
             "skipped": sum(r["status"] == "skipped" for r in results),
-            "missed": [r["witness"] for r in results if r["status"] in ("missed", "fired-unnamed", "broken")], "results": results}
+            "silent_ok": sum(r["status"] == "silent-ok" for r in results),
+            "missed": [r["witness"] for r in results if r["status"] in ("missed", "fired-unnamed", "broken", "FALSE-ALARM")], "results": results}
     for r in results:
         print("   witness %-44s %s" % (r["witness"], r["status"]))
     return summ
